@@ -8,7 +8,7 @@ from ..selftest import Mutant
 
 ID = "C04"
 TECHNIQUE = "CFG ordering / must-pass-through rules (K1), who-may-call (K4) and argument provenance (K5) over pack_repo.py and its overrides (ast)"
-FLOOR = 14
+FLOOR = 19
 PR = "breezy/bzr/pack_repo.py"
 GC = "breezy/bzr/groupcompress_repo.py"
 KP = "breezy/bzr/knitpack_repo.py"
